@@ -436,8 +436,10 @@ def _convert(R, rng, d, j, src_dir, info, src_acc, src_kind, src_scales, force=N
         dst_url = "precomputed://" + os.path.abspath(dst)      # the prefix followed by a plain pathname
         R.count("dest-url:precomputed://<absolute path>")
     try:
+        # (run below the scratch directory: a defect that turns the destination into a relative path must not
+        #  write into the harness's own working directory)
         rc, so, se = pipeline.run_script("convert_chunks", ([src_url, dst_url] + (["--copy-info"] if copy_info else []) + opts),
-                                         inprocess=inproc)
+                                         inprocess=inproc, cwd=d)
     finally:
         precomputed_io.PrecomputedIO.write_chunk, precomputed_io.PrecomputedIO.read_chunk = o_w, o_r
         if srv:
